@@ -25,6 +25,7 @@ mod scen_mecab;
 mod scen_model;
 mod scen_worker;
 mod world;
+mod xbuild;
 
 use std::os::fd::FromRawFd;
 use std::sync::Mutex;
@@ -94,6 +95,12 @@ fn main() {
     let mut dump = None;
     let mut evidence = true;
     let mut survey = false;
+    let mut xexport: Option<String> = None;
+    let mut ximport: Option<String> = None;
+    let mut xexporter = String::from("portable");
+    let mut xcases: u64 = 100;
+    let mut xcase: Option<u64> = None;
+    let mut xsummary: Option<String> = None;
     let mut i = 0;
     while i < args.len() {
         let a = args[i].as_str();
@@ -127,6 +134,12 @@ fn main() {
                 evidence = false
             }
             "--quiet" => {}
+            "--xexport" => xexport = Some(val()),
+            "--ximport" => ximport = Some(val()),
+            "--xexporter" => xexporter = val(),
+            "--xcases" => xcases = val().parse().unwrap_or(100),
+            "--xcase" => xcase = val().parse().ok(),
+            "--xsummary" => xsummary = Some(val()),
             _ => {
                 eprintln!("unknown argument {a}");
                 std::process::exit(2)
@@ -152,7 +165,21 @@ fn main() {
         out: Mutex::new(out),
         write_evidence: evidence && replay.is_none() && runs.is_none(),
         survey,
+        xsummary,
     };
+    if xexport.is_some() || ximport.is_some() {
+        let range = match xcase {
+            Some(c) => c..c + 1,
+            None => 0..xcases,
+        };
+        let say = |l: &str| opts.say(l);
+        let st = if let Some(dir) = xexport {
+            xbuild::export(&prop, seed, range, &dir, &say)
+        } else {
+            xbuild::import(&prop, seed, range, &ximport.unwrap(), &xexporter, &say)
+        };
+        std::process::exit(st);
+    }
     let status = if let Some(path) = replay {
         runner::replay(scen.as_ref(), &path, &opts)
     } else if let Some(run) = dump {
